@@ -15,7 +15,7 @@
    whenever no hash map met by an addition, conversion or pure-number function
    holds two of celsius / fahrenheit / kelvin ([unmixed], [unmixed_tree]). *)
 From FendV Require Import Base.Prelude Units.Defs Units.Algebra Units.Lookup Units.Dim Units.DimProofs
-     Units.Index Units.Legality Units.Table Units.TableProofs.
+     Units.Index Units.Legality Units.Table Units.TableProofs05.
 From FendV Require Import Units.Generated.UnitTable.
 From Coq Require Import QArith.
 Close Scope Q_scope.
